@@ -4,12 +4,13 @@ import importlib, json, os, sys
 sys.path.insert(0, os.path.dirname(os.path.abspath(__file__)))
 os.environ.setdefault("PYTHONHASHSEED", "0")
 PENDING = {}
+READY = [l.strip() for l in open("READY.txt") if l.strip() and not l.startswith("#")]
 props = [json.loads(l) for l in open("properties.jsonl")]
 checks, na = [], []
 for p in props:
     pid = p["id"]
     path = f"props/{pid.lower()}.py"
-    if os.path.exists(path) and not os.path.exists(path + ".disabled"):
+    if os.path.exists(path) and pid in READY:
         mod = importlib.import_module(f"props.{pid.lower()}")
         checks.append({
             "property_id": pid,
